@@ -48,6 +48,11 @@ def main(tier, only=None):
                     continue
                 code = sum((1 if c == 'w' else 2) << (2 * i) for i, c in enumerate(h))
                 shapes.append(('hx_files', [pol, lim, gens, code], '%s/limit%d/gens%d/%s' % ('counted' if pol == 0 else 'maxsize', lim, gens, h)))
+    # generation names built from a path separator, a fixed-width number with fill character and a suffix ("logs/app.<nn>.log")
+    for (pol, lim, gens) in ((0, 1, 2), (0, 2, 3), (1, 6, 2)):
+        for h in ('ww', 'www', 'wwrw', 'wrww', 'wwww'):
+            code = sum((1 if c == 'w' else 2) << (2 * i) for i, c in enumerate(h))
+            shapes.append(('hx_files', [pol | 4, lim, gens, code], 'names/%s/limit%d/gens%d/%s' % ('counted' if pol == 0 else 'maxsize', lim, gens, h)))
     if only:
         shapes = [s for s in shapes if re.search(only, s[2])]
     model = os.path.join(HERE, 'verif_fstream_model.hpp')
